@@ -45,13 +45,16 @@ var failExtOnce sync.Once
 // registerFailExtensions: vcancel(x) cancels the context of the input being evaluated (what ^C does) and returns x.
 func registerFailExtensions() {
 	failExtOnce.Do(func() {
-		_ = object.CreateFunction(object.Extension{Name: "vcancel", MinArgs: 1, MaxArgs: 1, DontCache: true,
+		err := object.CreateFunction(object.Extension{Name: "vcancel", MinArgs: 1, MaxArgs: 1, DontCache: true, ArgTypes: []object.Type{object.ANY},
 			Callback: func(st any, _ string, args []object.Object) object.Object {
 				if s, ok := st.(*eval.State); ok && s.Cancel != nil {
 					s.Cancel()
 				}
 				return object.Value(args[0])
 			}})
+		if err != nil {
+			panic("harness: vcancel: " + err.Error())
+		}
 	})
 }
 
@@ -161,7 +164,7 @@ func runFailHistory(inputs []string, noReg bool) []inObs {
 // failCalibrate: every form fails, in a fresh session, the way it is meant to (otherwise the sessions test nothing). A
 // deadline gets three tries (a late timer on a loaded machine).
 func failCalibrate() error {
-	want := map[string]string{"deadline": "deadline", "cancel": "cancel", "depth": "depth", "error": ""}
+	want := map[string]string{"deadline": "context deadline exceeded", "cancel": "context canceled", "depth": "max depth", "error": ""}
 	for _, how := range failHows {
 		for _, where := range failWheres {
 			for sel := 0; sel < 5; sel++ {
@@ -173,7 +176,7 @@ func failCalibrate() error {
 						break
 					}
 				}
-				if obs[0].Err || !obs[1].Err || !strings.Contains(obs[1].Val, want[how]) {
+				if obs[0].Err || !obs[1].Err || !strings.Contains(obs[1].Val, want[how]) || strings.Contains(obs[1].Val, "not found") {
 					return fmt.Errorf("failing input %q (%s in %s): err=%v %q (harness inputs out of date)", in[1], how, where, obs[1].Err, obs[1].Val)
 				}
 			}
